@@ -28,7 +28,7 @@ ASSUMPTIONS = ["vendored DPLL stand-in for python-sat; both decision polarities 
 
 def bounds(tier):
     q = tier == "quick"
-    return {"acyclic": [[2, 2], [3, 1]] if q else [[2, 2], [3, 2], [2, 3]], "cyclic": [[2, 2]] if q else [[2, 2], [1, 3]],
+    return {"acyclic": [[2, 2], [3, 1]] if q else [[2, 2], [3, 2]], "cyclic": [[2, 2]] if q else [[2, 2], [1, 2]],
             "assume_all_upto_nodes": 4 if q else 5, "ladder": list(range(5, 9 if q else 11)),
             "sigprob": [[2, 2], [3, 2]] if q else [[2, 2], [3, 2], [2, 3]]}
 
@@ -88,6 +88,11 @@ def corpus(tier):
     for I, G in b["cyclic"]:
         for gates in space.cyclic_circuits(I, G):
             yield space.to_desc(I, gates, outputs="sinks")
+    if tier != "quick":
+        for gates in space.cyclic_circuits(1, 3, types=("and", "xor", "not"), max_arity=2):
+            yield space.to_desc(1, gates, outputs="sinks")
+        for gates in space.circuits(2, 3, types=("and", "xor", "not"), max_arity=2, min_gates=3):
+            yield space.to_desc(2, gates, outputs="sinks")
     yield from bb_variants()
 
 
